@@ -20,6 +20,7 @@ for p_ in (HERE, '/repo'):
         sys.path.insert(0, p_)
 import warnings
 warnings.simplefilter('ignore')
+import pywbem
 import pywbem._listener as lm
 from verifpw.bmc import compiler as C
 from verifpw.bmc.encode import I
@@ -45,9 +46,10 @@ THOROUGH = [
     dict(name='2x2-cb1-bounded2', senders=2, inds=2, callbacks=1, maxq=2, starts=1, rounds=4),
     dict(name='3x1-cb2-unbounded', senders=3, inds=1, callbacks=2, maxq=0, starts=1, rounds=4),
     dict(name='1x1-cb1-startfail', senders=1, inds=1, callbacks=1, maxq=0, starts=1, start_may_fail=True, rounds=4),
-    dict(name='2x1-cb1-restart', senders=2, inds=1, callbacks=1, maxq=1, starts=2, rounds=4),
+    dict(name='2x1-cb1-restart', senders=2, inds=1, callbacks=1, maxq=2, starts=2, rounds=4),
     dict(name='3x3-cb2-bounded2', senders=3, inds=3, callbacks=2, maxq=2, starts=1, rounds=3, goal='some-refused'),
-    dict(name='3x3-cb2-unbounded', senders=3, inds=3, callbacks=2, maxq=0, starts=1, rounds=3),
+    dict(name='3x2-cb2-unbounded', senders=3, inds=2, callbacks=2, maxq=0, starts=1, rounds=3),
+    dict(name='1x1-cb1-stop-twice', senders=1, inds=1, callbacks=1, maxq=0, starts=1, rounds=4, script=['stop', 'start', 'stop', 'stop']),
     dict(name='1x2-cb1-more-timeouts', senders=1, inds=2, callbacks=1, maxq=1, starts=1, rounds=4, max_timeouts=4, max_sleeps=4),
 ]
 DEFAULTS = dict(max_timeouts=2, max_sleeps=2, rounds=4, start_may_fail=False, callbacks_raise=True)
@@ -78,9 +80,9 @@ def server_joins_handlers():
     return bool(getattr(cls, 'block_on_close', False)) and not bool(getattr(cls, 'daemon_threads', False))
 
 
-def main_script(starts):
-    body = ''.join('    self.start()\n    self.stop()\n' for _ in range(starts))
-    return 'def verif_main(self):\n' + body
+def main_script(cfg):
+    calls = cfg.get('script') or ['start', 'stop'] * cfg['starts']
+    return 'def verif_main(self):\n' + ''.join('    self.%s()\n' % c for c in calls)
 
 
 def build(cfg):
@@ -90,7 +92,7 @@ def build(cfg):
     comp = C.Compiler(lm, consts=consts, ncallbacks=cfg['callbacks'])
     for a in comp.shared:
         consts.pop(a, None)
-    threads = [dict(name='main', kind='main', prog=C.compile_thread(comp, 'main', 'main', main_script(cfg['starts'])))]
+    threads = [dict(name='main', kind='main', prog=C.compile_thread(comp, 'main', 'main', main_script(cfg)))]
     # round-robin order: main, senders, callback threads (the order in which a clean run needs them)
     for s in range(cfg['senders']):
         threads.append(dict(name='sender%d' % s, kind='sender', sender=s, prog=C.compile_thread(comp, 'sender%d' % s, 'sender')))
@@ -107,7 +109,7 @@ def violation_terms(model, cfg, p):
     allowed_main = [0]
     if cfg.get('start_may_fail'):
         # start() is documented to raise Listener*Error / OSError when the server cannot be created
-        allowed_main += [i for i, c in enumerate(model.comp.exc_classes) if c is not None and issubclass(c, (OSError, lm.Error))]
+        allowed_main += [i for i, c in enumerate(model.comp.exc_classes) if c is not None and issubclass(c, (OSError, pywbem.ListenerError))]
     main_done = p['pc0'] == model.threads[0]['end']
     terms = {}
     terms['order-or-duplicate'] = p['bad'] != 0
